@@ -16,7 +16,7 @@ import vflib
 SPEC = "Mempool"
 OBS_INVARIANTS = {
     "C22": ["ObsChain", "ObsKnown", "ObsConsistent", "ObsNextBlockValid", "ObsLinks", "ObsTotals"],
-    "C26": ["ObsReplacement", "ObsRejectNoEvict"],
+    "C26": ["ObsReplacement", "ObsRejectNoEvict", "ObsPkgReplacement"],
     "C28": ["ObsTestPure", "ObsPolicyImpliesConsensus"],
     "C27": ["ObsKnown", "ObsUsage", "ObsClusterLimits", "ObsMinFeeAboveEvicted", "ObsTruc", "ObsDust"],
     "C29": ["ObsKnown", "ObsPkgShape", "ObsPkgGate", "ObsPkgNoDangling", "ObsPkgResults"],
